@@ -447,7 +447,7 @@ func runCase(c Val) Val {
 				// after TEARDOWN the end of the exchange is the server closing the connection
 				d := 6 * time.Second
 				if teardown {
-					d = 2 * time.Second
+					d = 5 * time.Second
 				}
 				if timeouts > 4 {
 					d = 30 * time.Millisecond
